@@ -16,13 +16,15 @@ import random
 from .. import cfgadapter, codec, common, replay, tlc, tracecheck
 
 ALL_INV = ["C01_AllValid", "C12_Fresh", "C15_Error"]
-ALL_PROP = ["C01_Readback", "C06_Unchanged", "C12_Marks", "C12_Reset", "C13_Isolated"]
+ALL_PROP = ["C01_Readback", "C06_Unchanged", "C12_Marks", "C12_Reset", "C13_Isolated", "C02_Reproduces"]
 
 BASE_CFG = """CONSTANTS
   Environ <- MCEnviron
   KeyNames <- MCKeyNames
   KeyChars <- MCKeyChars
   TheSchema <- {schema}
+  Family <- {family}
+  Generic = {generic}
   SetCands <- MCSetCands{sfx}
   Trees <- MCTrees{sfx}
   Kwargs <- MCKwargs{sfx}
@@ -36,10 +38,19 @@ VIEW View
 
 
 SFX = {"SchemaA": "", "SchemaV": "V", "SchemaB": "B"}
+FAMILY = {"GFirst": "MCFamily2", "GFirst3": "MCFamily3"}  # generated schema families (see cfgfamily.py)
+
+
+def base_cfg(schema, depth):
+    fam = FAMILY.get(schema)
+    return BASE_CFG.format(
+        schema="GFirst" if fam else schema, depth=depth, sfx=SFX.get(schema, "B" if fam else ""),
+        family=fam or "MCNoFamily", generic="TRUE" if fam else "FALSE",
+    )
 
 
 def write_cfg(path, schema, depth, invs=(), props=(), export=False, bound=True):
-    text = BASE_CFG.format(schema=schema, depth=depth, sfx=SFX.get(schema, ""))
+    text = base_cfg(schema, depth)
     if bound:
         text += "CONSTRAINT Bound\n"
     for i in invs:
@@ -58,11 +69,11 @@ def schema_descriptor(module, schema_name):
     mod = os.path.join(d, "ShowSchema.tla")
     with open(mod, "w") as fp:
         fp.write(
-            "---- MODULE ShowSchema ----\nEXTENDS %s\nASSUME PrintT(<<\"CASE\", ToJson(%s)>>)\nI == cfgs = <<>> /\\ ev = <<>> /\\ steps = 0\nN == FALSE /\\ UNCHANGED <<cfgs, ev, steps>>\n====\n"
+            "---- MODULE ShowSchema ----\nEXTENDS %s\nASSUME PrintT(<<\"CASE\", ToJson(%s)>>)\nI == cfgs = <<>> /\\ ev = <<>> /\\ steps = 0 /\\ sid = 0 /\\ sch = 0\nN == FALSE /\\ UNCHANGED <<cfgs, ev, steps, sid, sch>>\n====\n"
             % (module, schema_name)
         )
     with open(os.path.join(d, "ShowSchema.cfg"), "w") as fp:
-        fp.write(BASE_CFG.format(schema=schema_name, depth=1, sfx=SFX.get(schema_name, "")).split("INIT")[0] + "INIT I\nNEXT N\n")
+        fp.write(base_cfg(schema_name, 1).split("INIT")[0] + "INIT I\nNEXT N\n")
     for name in os.listdir(tlc.SPEC_DIR):
         if name.endswith(".tla"):
             os.symlink(os.path.join(tlc.SPEC_DIR, name), os.path.join(d, name))
@@ -156,7 +167,7 @@ def run_machine(prop, invs, props, tier, seed, schema="SchemaA", signature_prefi
     tcfg = os.path.join(d, "trace.cfg")
     with open(tcfg, "w") as fp:
         fp.write(
-            BASE_CFG.format(schema=schema, depth=99, sfx=SFX.get(schema, "")).replace("INIT Init", "INIT TraceInit").replace("NEXT Next", "NEXT TraceNext").replace("VIEW View", "VIEW TraceView")
+            base_cfg(schema, 99).replace("INIT Init", "INIT TraceInit").replace("NEXT Next", "NEXT TraceNext").replace("VIEW View", "VIEW TraceView")
             + "ACTION_CONSTRAINT Report\nCONSTRAINT ReportState\n"
         )
     verdicts, tstats = tracecheck.validate("Trace_Config.tla", tcfg, traces, wanted=set(invs) | set(props))
@@ -222,6 +233,9 @@ def merge(a, b):
         ca["spec_to_code_by_op"][k] = ca["spec_to_code_by_op"].get(k, 0) + v
     ca["tlc_instance"] = ca["tlc_instance"] + " + " + cb["tlc_instance"]
     ca["samples"] = ca["samples"] + cb["samples"][:1]
+    for k, v in cb.items():
+        if k.startswith("family_") or k == "phase_seconds":
+            ca[k] = v
     a.assumptions = a.assumptions + [x for x in b.assumptions if x not in a.assumptions]
     return a
 
@@ -347,7 +361,7 @@ def driver(cinco, desc, seed, n_traces, length):
                 elif r < 0.75:
                     ev = {"op": rng.choice(["Validate", "ValidateCollect"]), "n": n}
                 elif r < 0.77:
-                    ev = {"op": "Query", "n": n}
+                    ev = {"op": "Query", "n": n} if rng.random() < 0.5 else {"op": "RoundTrip", "n": n, "fmt": rng.choice(["json", "yaml", "bson", "xml", "pickle"])}
                 elif r < 0.80:
                     other = "c2" if n == "c1" else "c1"
                     if w.cfgs[other] is None:
